@@ -536,3 +536,60 @@ v("C14", "rank-getShape-estimated-authoritative", "fire", R,
 v("C14", "silent-flatten-reorder-setters", "silent", T,
   "        tensor.setName(self.getName() + \"+flattened\")\n        tensor.setColor(self.getColor())\n        tensor.setMutable(self.isMutable())\n        tensor.setDefault(self.getDefault())",
   "        tensor.setDefault(self.getDefault())\n        tensor.setMutable(self.isMutable())\n        tensor.setColor(self.getColor())\n        tensor.setName(self.getName() + \"+flattened\")")
+
+# ---------------------------------------------------------------- C15
+v("C15", "and-index-by-metrics-counter", "fire", I,
+  "                    yield succ_yield(a_coord, b_coord), (a_payload, b_payload)\n",
+  "                    if a_traced:\n                        a_payload = self.a_fiber.payloads[a_pos]\n                    yield succ_yield(a_coord, b_coord), (a_payload, b_payload)\n", "C15.R1")
+v("C15", "collecting-branch-advances-iterator", "fire", I,
+  "                    if is_collecting:\n                        Metrics.incIter(rank)\n\n                    a_coord, a_payload = _get_next(a)\n\n                    continue\n\n                if a_coord > b_coord:",
+  "                    if is_collecting:\n                        Metrics.incIter(rank)\n                        a_coord, a_payload = _get_next(a)\n\n                    a_coord, a_payload = _get_next(a)\n\n                    continue\n\n                if a_coord > b_coord:", "C15.R1")
+v("C15", "yield-under-traced", "fire", I,
+  "                    yield a_coord, (\"AB\", a_payload, b_payload)\n",
+  "                    if not a_traced:\n                        yield a_coord, (\"AB\", a_payload, b_payload)\n", "C15.R1")
+v("C15", "iterRange-break-when-collecting", "fire", I,
+  "                if is_collecting and tick:\n                    Metrics.incIter(rank)\n\n        # Otherwise continue",
+  "                if is_collecting and tick:\n                    Metrics.incIter(rank)\n                    if coord > 1000000:\n                        break\n\n        # Otherwise continue", "C15.R1")
+v("C15", "getPayload-traced-inserts", "fire", F,
+  "        if Metrics.isCollecting() and trace is not None:\n            Metrics.addUse(self.getRankAttrs().getId(), coords[0], index, type_=trace)",
+  "        if Metrics.isCollecting() and trace is not None:\n            Metrics.addUse(self.getRankAttrs().getId(), coords[0], index, type_=trace)\n            self.setActive(None)", "C15.R1")
+v("C15", "payload-add-result-depends", "fire", P,
+  "        if Metrics.isCollecting():\n            Metrics.incCount(\"Compute\", \"payload_add\", 1)\n\n        return Payload(ans)",
+  "        if Metrics.isCollecting():\n            Metrics.incCount(\"Compute\", \"payload_add\", 1)\n            ans = ans + 0.0\n\n        return Payload(ans)", "C15.R1")
+v("C15", "unguarded-incIter", "fire", I,
+  "        if is_collecting and tick:\n            Metrics.incIter(rank)\n\n    if is_collecting and tick:\n        Metrics.endIter(rank)\n\ndef iterRangeShapeRef",
+  "        if tick:\n            Metrics.incIter(rank)\n\n    if is_collecting and tick:\n        Metrics.endIter(rank)\n\ndef iterRangeShapeRef", "C15.R2")
+v("C15", "unguarded-getLabel", "fire", I,
+  "            if is_collecting:\n                rank = self.a_fiber.getRankAttrs().getId()\n                a_label = str(Metrics.getLabel(rank))\n                b_label = str(Metrics.getLabel(rank))\n\n                a_trace = \"union_\" + a_label",
+  "            rank = self.a_fiber.getRankAttrs().getId()\n            a_label = str(Metrics.getLabel(rank))\n            if is_collecting:\n                b_label = str(Metrics.getLabel(rank))\n\n                a_trace = \"union_\" + a_label", "C15.R2")
+v("C15", "mul-counts-add", "fire", P,
+  "            Metrics.incCount(\"Compute\", \"payload_mul\", 1)\n\n        return Payload(ans)",
+  "            Metrics.incCount(\"Compute\", \"payload_add\", 1)\n\n        return Payload(ans)", "C15.R3")
+v("C15", "iadd-always-counts-add", "fire", P,
+  "            if old != 0:\n                Metrics.incCount(\"Compute\", \"payload_add\", 1)",
+  "            Metrics.incCount(\"Compute\", \"payload_add\", 1)", "C15.R3")
+v("C15", "sub-counts-add", "fire", P,
+  "            ans = self.value - other\n\n        return Payload(ans)",
+  "            ans = self.value - other\n\n        if Metrics.isCollecting():\n            Metrics.incCount(\"Compute\", \"payload_add\", 1)\n\n        return Payload(ans)", "C15.R3")
+v("C15", "imul-counts-twice", "fire", P,
+  "            Metrics.incCount(\"Compute\", \"payload_mul\", 1)\n            Metrics.incCount(\"Compute\", \"payload_update\", 1)",
+  "            Metrics.incCount(\"Compute\", \"payload_mul\", 2)\n            Metrics.incCount(\"Compute\", \"payload_update\", 1)", "C15.R3")
+v("C15", "beginCollect-forgets-rank_matches", "fire", M,
+  "        cls.rank_matches = {}\n        cls.rank_flatten = {}\n        cls.traces = {}\n\n    @classmethod\n    def dump",
+  "        cls.rank_flatten = {}\n        cls.traces = {}\n\n    @classmethod\n    def dump", "C15.R4")
+v("C15", "beginCollect-keeps-metrics-dict", "fire", M,
+  "        cls.metrics = {}\n", "        cls.metrics = cls.metrics or {}\n", "C15.R4")
+v("C15", "new-cache-attr-not-reset", "fire", M,
+  "        cls.fiber_label[iter_rank] += 1\n",
+  "        cls.fiber_label[iter_rank] += 1\n        cls.label_cache[rank] = iter_rank\n", "C15.R4")
+v("C15", "iterRange-double-tick", "fire", I,
+  "                if is_collecting and tick:\n                    Metrics.incIter(rank)\n\n        # Otherwise continue",
+  "                if is_collecting and tick:\n                    Metrics.incIter(rank)\n                    Metrics.incIter(rank)\n\n        # Otherwise continue", "C15.R6")
+v("C15", "iterRangeShape-no-endIter", "fire", I,
+  "        if is_collecting and tick:\n            Metrics.incIter(rank)\n\n    if is_collecting and tick:\n        Metrics.endIter(rank)\n\ndef iterRangeShapeRef",
+  "        if is_collecting and tick:\n            Metrics.incIter(rank)\n\ndef iterRangeShapeRef", "C15.R6")
+v("C15", "silent-payload-add-guard-var", "silent", P,
+  "        if Metrics.isCollecting():\n            Metrics.incCount(\"Compute\", \"payload_add\", 1)\n\n        return Payload(ans)",
+  "        collecting = Metrics.isCollecting()\n        if collecting:\n            Metrics.incCount(\"Compute\", \"payload_add\", 1)\n\n        return Payload(ans)")
+v("C15", "silent-or-extra-metrics-local", "silent", I,
+  "                a_trace = \"union_\" + a_label\n", "                prefix_ = \"union_\"\n                a_trace = prefix_ + a_label\n")
